@@ -39,6 +39,9 @@ DIMS = [
     ("sname", ["schema.graphql", "schema.graphqls", "schema.gql", "schema.json"]),   # every schema file form the library reads
     ("qtext", ["lf", "crlf", "comments_tabs_bom_free"]),   # the query file's bytes reach the library unchanged
     ("relative", [False, True]),   # paths given relative to the working directory (the output directory too)
+    # the query / schema path given on the command line is a symbolic link to a file of another name in another directory:
+    # the output is named after and placed beside the path *as given*, and the schema's form follows the given extension
+    ("link", [None, "query", "schema"]),
 ]
 
 
@@ -155,9 +158,18 @@ def run(tier):
         root = os.path.join(base, "r%05d" % i)
         os.makedirs(os.path.join(root, "sub"))
         os.makedirs(os.path.join(root, "out"))
-        with open(os.path.join(root, cfg["sname"]), "w") as f:
+        spath, qpath = os.path.join(root, cfg["sname"]), os.path.join(root, cfg["qname"])
+        if cfg.get("link"):
+            os.makedirs(os.path.join(root, "store"))
+            real = os.path.join(root, "store", "shared_doc_v7.graphql" if cfg["link"] == "query" else "blob.bin")
+            os.symlink(real, qpath if cfg["link"] == "query" else spath)
+            if cfg["link"] == "query":
+                qpath = real
+            else:
+                spath = real
+        with open(spath, "w") as f:
             f.write(sjson if cfg["sname"].endswith(".json") else sdl)
-        with open(os.path.join(root, cfg["qname"]), "wb") as f:
+        with open(qpath, "wb") as f:
             f.write(query_bytes(qtext, cfg["qtext"]))
         if cfg["preexisting"]:
             stem = os.path.splitext(os.path.basename(cfg["qname"]))[0]
@@ -288,7 +300,7 @@ def run(tier):
     shutil.rmtree(base, ignore_errors=True)
     cov = {
         "evaluations": len(cfgs) + len(fail_cases), "distinct_nontrivial": len(distinct),
-        "rule": "success clause: every setting of 16 dimensions (absolute / working-directory-relative paths, query file bytes LF / CRLF / comments+tabs, schema file form .graphql / .graphqls / .gql / .json, pre-existing output, derives, deprecation strategy incl. an invalid value, module "
+        "rule": "success clause: every setting of 17 dimensions (query or schema path given as a symbolic link to a differently named file elsewhere, absolute / working-directory-relative paths, query file bytes LF / CRLF / comments+tabs, schema file form .graphql / .graphqls / .gql / .json, pre-existing output, derives, deprecation strategy incl. an invalid value, module "
                 "visibility, custom scalars module, other-variant, external enums, selected operation incl. a missing one, output "
                 "directory, formatting, query file name, short / long flag spelling) within deviation bound %d of the default "
                 "invocation; failure clause: up to %d instances of every invalidating edit kind of C06, an unparsable query, missing "
